@@ -5,7 +5,12 @@
 //! Three sub-configurations, chosen per case:
 //!
 //! (a) `Kind::Commits`: programs of begin/put/delete/commit/rollback over
-//!     several workspaces, either on one thread (sequential, the oracle is
+//!     several workspaces (operations: every `Transaction` kind that
+//!     `TransactionWorkspace::add_operation` accepts - key/value, embedding, graph
+//!     node/edge, table row, compare-and-swap; commits that fail BEFORE anything
+//!     is applied - conflict, wrong state, block size limit - and commits that
+//!     fail AFTER the operations were applied, because `Chain::append` rejects the
+//!     block while the proposer's key is out of the validator registry), either on one thread (sequential, the oracle is
 //!     evaluated after every commit/rollback) or on 2-4 baton-scheduled threads
 //!     (switches at operation boundaries and at the `chain.commit.*` hook sites
 //!     inside `TensorChain::commit`); conflicting/orthogonal key sets and delta
@@ -17,7 +22,11 @@
 //!     merged transitions and vetoes others.
 //! (b) `Kind::Tamper`: a sequential program, then ONE storage fault on the
 //!     stored block records (one field of one block altered, one record
-//!     removed, two swapped, one forged and re-signed), then `verify()`.
+//!     removed, two swapped, one forged and re-signed; or a coordinated
+//!     alteration of two fields of one stored block: the boundary between two
+//!     adjacent variable-length fields moved, a field truncated and its
+//!     neighbour extended, two equal-length fields swapped, two transactions
+//!     reordered), then `verify()`.
 //! (c) `Kind::Replay`: a sequential program, then the committed block sequence
 //!     is fed to two real `TensorStateMachine` replicas, each living on its own
 //!     OS thread (its own `HashMap` hash seeds from the simulated getrandom).
@@ -26,7 +35,7 @@ use crate::ctx::{install, RunCtx};
 use crate::driver::{drop_chunks, RunOut, Scenario, Tier, Violation};
 use crate::rng::Rng;
 use crate::sched;
-use crate::storeutil::{canon_map, dump_store_data, hex};
+use crate::storeutil::{canon_map, dump_store, dump_store_data, hex};
 use graph_engine::GraphEngine;
 use serde::{Deserialize, Serialize};
 use serde_json::{json, Value};
@@ -40,7 +49,7 @@ use tensor_chain::transaction::{TransactionState, TransactionWorkspace};
 use tensor_chain::{
     compute_state_root, Chain, ChainConfig, ChainError, CodebookConfig, GlobalCodebook, TensorChain, TensorStateMachine, ValidationConfig,
 };
-use tensor_store::{ScalarValue, SparseVector, TensorStore, TensorValue};
+use tensor_store::{ScalarValue, SparseVector, TensorData, TensorStore, TensorValue};
 
 #[derive(Serialize, Deserialize, Clone, Debug, PartialEq)]
 pub enum Op {
@@ -54,6 +63,14 @@ pub enum Op {
     /// let simulated time pass (auto-merge only considers workspaces younger
     /// than its merge window)
     Advance { ms: u16 },
+    /// any operation `TransactionWorkspace::add_operation` accepts (the case holds
+    /// the transaction itself)
+    Tx { ws: u8, tx: Transaction },
+    /// the chain's own key in its validator registry
+    /// (`TensorChain::validator_registry()`): removed (`present: false`) or put back.
+    /// While it is out, `Chain::append` rejects every block above height 1
+    /// ("unknown proposer") - after `commit` has applied the operations to the store.
+    Validator { present: bool },
 }
 
 #[derive(Serialize, Deserialize, Clone, Debug, PartialEq)]
@@ -69,6 +86,10 @@ pub enum Tamper {
     /// registered validator (only with `second_validator`); `claim_own`: the
     /// forger also writes its own id into `proposer`
     Forge { h: u8, signer: u8, claim_own: bool },
+    /// a coordinated alteration of TWO fields of one stored block (index into
+    /// `RESHAPES`), which keeps the concatenation / the multiset of the field bytes;
+    /// `pick` selects among the applicable places of the block
+    Reshape { h: u8, kind: u8, pick: u16 },
 }
 
 #[derive(Serialize, Deserialize, Clone, Debug, PartialEq)]
@@ -153,6 +174,12 @@ pub struct Case {
     /// uses, the counter is never consulted.
     #[serde(default)]
     pub epoch_ms: u64,
+    /// `ChainConfig::max_txs_per_block` (0 / absent in older replay files: the
+    /// library default of 1000, never reached). A small limit makes commits fail on
+    /// the size of the workspace or of the merged block (before anything is applied,
+    /// after auto-merge took its candidates).
+    #[serde(default)]
+    pub max_txs: u8,
     /// register a second validator identity with the chain
     pub second_validator: bool,
     /// one program per thread; one thread = sequential
@@ -164,6 +191,26 @@ pub struct C16;
 
 const NKEYS: u8 = 6;
 const DIM: usize = 128;
+/// kinds of `Tamper::Reshape`
+const RESHAPES: &[&str] = &[
+    // the boundary between two adjacent variable-length fields of one stored
+    // transaction moved (fixed-width fields in between slide along)
+    "shift-within-tx",
+    // the tail of the last variable-length field of one transaction cut off and
+    // put in front of the first field of the next transaction, or the reverse
+    "shift-across-txs",
+    // two equal-length fields of one transaction swapped
+    "swap-within-tx",
+    // two equal-length fields of two transactions of the block swapped
+    "swap-across-txs",
+    // two (different) transactions of the block exchanged
+    "tx-reorder",
+    // two of the header's 32-byte fields (prev_hash, tx_root, state_root) swapped
+    "header-swap",
+    // the boundaries between the header's trailing fields quantized_codes |
+    // timestamp | proposer moved
+    "header-shift",
+];
 const FIELDS: &[&str] = &[
     "height",
     "prev_hash",
@@ -183,6 +230,149 @@ const FIELDS: &[&str] = &[
 
 fn user_key(k: u8) -> String {
     format!("u:k{}", k % NKEYS)
+}
+
+fn lossy(b: &[u8]) -> String {
+    String::from_utf8_lossy(b).into_owned()
+}
+
+fn tx_kind(tx: &Transaction) -> &'static str {
+    match tx {
+        Transaction::Put { .. } => "put",
+        Transaction::Delete { .. } => "delete",
+        Transaction::Embed { .. } => "embed",
+        Transaction::NodeCreate { .. } => "node-create",
+        Transaction::NodeDelete { .. } => "node-delete",
+        Transaction::EdgeCreate { .. } => "edge-create",
+        Transaction::TableInsert { .. } => "table-insert",
+        Transaction::TableUpdate { .. } => "table-update",
+        Transaction::TableDelete { .. } => "table-delete",
+        Transaction::CompareAndSwap { .. } => "cas",
+        _ => "other",
+    }
+}
+
+fn tx_str(tx: &Transaction) -> String {
+    match tx {
+        Transaction::Put { key, data } => format!("put {key}={}", lossy(data)),
+        Transaction::Delete { key } => format!("delete {key}"),
+        Transaction::Embed { key, vector } => format!("embed {key}={vector:?}"),
+        Transaction::NodeCreate { key, label } => format!("node-create {key} label {label}"),
+        Transaction::NodeDelete { key } => format!("node-delete {key}"),
+        Transaction::EdgeCreate { from, to, edge_type } => format!("edge-create {from}->{to} type {edge_type}"),
+        Transaction::TableInsert { table, values } => format!("table-insert {table} values {}", lossy(values)),
+        Transaction::TableUpdate { table, row_id, values } => format!("table-update {table} row {row_id} values {}", lossy(values)),
+        Transaction::TableDelete { table, row_id } => format!("table-delete {table} row {row_id}"),
+        Transaction::CompareAndSwap { key, expected_data, new_data } => {
+            format!("cas {key}: {:?} -> {}", lossy(expected_data), lossy(new_data))
+        },
+        other => format!("{other:?}"),
+    }
+}
+
+fn bytes_data(b: &[u8]) -> TensorData {
+    let mut d = TensorData::new();
+    d.set("data", TensorValue::Scalar(ScalarValue::Bytes(b.to_vec())));
+    d
+}
+
+fn str_val(s: &str) -> TensorValue {
+    TensorValue::Scalar(ScalarValue::String(s.to_string()))
+}
+
+/// Reference semantics of one committed operation on the store, as the
+/// `Transaction` variants document it ("Store tensor data", "Delete ...", "Store
+/// embedding vector" under `emb:{key}`, graph nodes under `node:{key}`, edges under
+/// `edge:{from}:{to}:{type}`, table rows under `table:{table}:row:{row}`, "write
+/// `new_data` only if current value equals `expected_data`"): the store keys the
+/// operation writes, with the record it leaves (None: the key is absent afterwards).
+fn model_apply(m: &mut BTreeMap<String, TensorData>, tx: &Transaction) {
+    match tx {
+        Transaction::Put { key, data } => {
+            m.insert(key.clone(), bytes_data(data));
+        },
+        Transaction::Delete { key } => {
+            m.remove(key);
+        },
+        Transaction::Embed { key, vector } => {
+            let mut d = TensorData::new();
+            d.set("vector", TensorValue::Vector(vector.clone()));
+            m.insert(format!("emb:{key}"), d);
+        },
+        Transaction::NodeCreate { key, label } => {
+            let mut d = TensorData::new();
+            d.set("_id", str_val(key));
+            d.set("_type", str_val("node"));
+            d.set("_label", str_val(label));
+            m.insert(format!("node:{key}"), d);
+        },
+        Transaction::NodeDelete { key } => {
+            m.remove(&format!("node:{key}"));
+        },
+        Transaction::EdgeCreate { from, to, edge_type } => {
+            let mut d = TensorData::new();
+            d.set("_from", str_val(from));
+            d.set("_to", str_val(to));
+            d.set("_edge_type", str_val(edge_type));
+            m.insert(format!("edge:{from}:{to}:{edge_type}"), d);
+        },
+        Transaction::TableInsert { table, values } => {
+            // a new row named after the operation itself
+            m.insert(format!("table:{table}:row:{}", hex(&tx.hash())), bytes_data(values));
+        },
+        Transaction::TableUpdate { table, row_id, values } => {
+            m.insert(format!("table:{table}:row:{row_id}"), bytes_data(values));
+        },
+        Transaction::TableDelete { table, row_id } => {
+            m.remove(&format!("table:{table}:row:{row_id}"));
+        },
+        Transaction::CompareAndSwap { key, expected_data, new_data } => {
+            let cur: &[u8] = match m.get(key).and_then(|d| d.get("data")) {
+                Some(TensorValue::Scalar(ScalarValue::Bytes(b))) => b.as_slice(),
+                _ => &[],
+            };
+            if cur == expected_data.as_slice() {
+                m.insert(key.clone(), bytes_data(new_data));
+            }
+        },
+        _ => {},
+    }
+}
+
+/// Keys the chain itself keeps in the store next to the data (block records,
+/// height, the chain-link graph with its indexes); everything else is data.
+fn is_chain_bookkeeping(k: &str) -> bool {
+    let numeric = |rest: &str| rest.chars().next().is_some_and(|c| c.is_ascii_digit());
+    k.starts_with("chain:")
+        || k.starts_with("_graph")
+        || k.strip_prefix("node:").is_some_and(numeric)
+        || k.strip_prefix("edge:").is_some_and(numeric)
+}
+
+fn key_class(k: &str) -> &'static str {
+    if is_chain_bookkeeping(k) {
+        "chain-bookkeeping"
+    } else if k.starts_with("table:") {
+        "table-row"
+    } else if k.starts_with("node:") {
+        "graph-node"
+    } else if k.starts_with("edge:") {
+        "graph-edge"
+    } else if k.starts_with("emb:") {
+        "embedding"
+    } else {
+        "plain-key"
+    }
+}
+
+/// first key (in key order) on which two canonical dumps differ
+fn first_diff_key(a: &BTreeMap<String, String>, b: &BTreeMap<String, String>) -> Option<String> {
+    let keys: BTreeSet<&String> = a.keys().chain(b.keys()).collect();
+    keys.into_iter().find(|k| a.get(*k) != b.get(*k)).cloned()
+}
+
+fn data_dump(store: &TensorStore) -> BTreeMap<String, String> {
+    dump_store(store, false).into_iter().filter(|(k, _)| !is_chain_bookkeeping(k)).collect()
 }
 
 /// Delta embeddings: 1..=3 pairwise orthogonal one-hot vectors (equal index =
@@ -215,6 +405,9 @@ fn err_kind(e: &ChainError) -> String {
                 "ValidationFailed(expected height)".into()
             } else if m.starts_with("height ") {
                 "ValidationFailed(height does not follow)".into()
+            } else if m.starts_with("unknown proposer") {
+                // the message names the node id
+                "ValidationFailed(unknown proposer)".into()
             } else {
                 format!("ValidationFailed({m})")
             }
@@ -268,6 +461,8 @@ struct World {
     /// its candidates (anything but a conflict or a wrong workspace state): such a
     /// commit marks the workspaces it merged Failed as well
     late_commit_failure: Mutex<bool>,
+    /// a violation found inside an operation (sequential mode: the run loop picks it up)
+    pending: Mutex<Option<Violation>>,
     /// see `Case::epoch_ms`
     private_clock: bool,
     /// simulated wall clock (ns) at which each successful commit started
@@ -331,11 +526,45 @@ impl World {
                 }
                 ctx.event(&format!("t{t} ws{ws} delete {} -> {}", user_key(*k), if r.is_ok() { "ok" } else { "refused" }));
             },
+            Op::Tx { ws, tx } => {
+                let Some(&i) = slots.get(ws) else { return };
+                let w = self.recs.lock().unwrap()[i].ws.clone();
+                let r = w.add_operation(tx.clone());
+                if r.is_ok() {
+                    self.recs.lock().unwrap()[i].ops.push(tx.clone());
+                }
+                ctx.event(&format!("t{t} ws{ws} {} -> {}", tx_str(tx), if r.is_ok() { "ok" } else { "refused" }));
+            },
+            Op::Validator { present } => {
+                let reg = self.chain.validator_registry();
+                if *present {
+                    let r = reg.register_public_key(&self.chain.public_key_bytes());
+                    ctx.event(&format!("t{t} own key registered again -> {}", if r.is_ok() { "ok" } else { "Err" }));
+                } else {
+                    let was = reg.remove(self.chain.node_id()).is_some();
+                    if was {
+                        ctx.probe("own_key_unregistered");
+                    }
+                    ctx.event(&format!("t{t} own key removed from the validator registry (was registered: {was})"));
+                }
+            },
             Op::Commit { ws } => {
                 let Some(&i) = slots.get(ws) else { return };
-                let (w, nops) = {
+                let (w, nops, table_ops) = {
                     let recs = self.recs.lock().unwrap();
-                    (recs[i].ws.clone(), recs[i].ops.len())
+                    (
+                        recs[i].ws.clone(),
+                        recs[i].ops.len(),
+                        recs[i].ops.iter().any(|o| {
+                            matches!(o, Transaction::TableInsert { .. } | Transaction::TableUpdate { .. } | Transaction::TableDelete { .. })
+                        }),
+                    )
+                };
+                // sequential mode: nothing else touches chain and store during the call
+                let pre = if self.concurrent {
+                    None
+                } else {
+                    Some((dump_store(self.chain.store(), false), self.chain.height(), self.chain.tip_hash()))
                 };
                 {
                     let mut ic = self.in_commit.lock().unwrap();
@@ -359,12 +588,73 @@ impl World {
                         *self.late_commit_failure.lock().unwrap() = true;
                     }
                 }
+                // a failure of Chain::append (block rejected: proposer unknown to the registry,
+                // height / tip moved): `commit` had applied the operations by then
+                let after_apply = r.as_ref().err().is_some_and(|e| {
+                    let k = err_kind(e);
+                    k == "ValidationFailed(unknown proposer)" || k == "ValidationFailed(expected height)" || k == "InvalidHash"
+                });
+                if after_apply && nops > 0 {
+                    ctx.probe("commit_failed_after_apply");
+                    ctx.fp("late-failure");
+                    if table_ops {
+                        ctx.probe("commit_failed_after_apply_with_table_ops");
+                    }
+                    if nops > 1 {
+                        ctx.probe("commit_failed_after_apply_multi_op");
+                    }
+                }
+                if matches!(&r, Err(ChainError::TransactionFailed(m)) if m.contains("max_txs_per_block")) {
+                    ctx.probe("commit_failed_on_block_size");
+                }
+                if let (Some((pre_dump, pre_height, pre_tip)), Err(e)) = (&pre, &r) {
+                    // "or leaves chain and store untouched": the whole store, the height and
+                    // the tip are what they were before the failed call
+                    let post_dump = dump_store(self.chain.store(), false);
+                    let phase = if after_apply { "after-apply" } else { "before-apply" };
+                    let mut found: Option<Violation> = None;
+                    if self.chain.height() != *pre_height || self.chain.tip_hash() != *pre_tip {
+                        found = Some(Violation {
+                            class: format!("failed-commit-changed-chain:{phase}{}", self.shape()),
+                            detail: format!(
+                                "commit of ws{ws} returned Err {} but height went from {pre_height} to {} (tip {})",
+                                err_kind(e),
+                                self.chain.height(),
+                                if self.chain.tip_hash() == *pre_tip { "unchanged" } else { "changed" }
+                            ),
+                        });
+                    } else if let Some(k) = first_diff_key(pre_dump, &post_dump) {
+                        let n = pre_dump.keys().chain(post_dump.keys()).collect::<BTreeSet<_>>().into_iter().filter(|k| pre_dump.get(*k) != post_dump.get(*k)).count();
+                        found = Some(Violation {
+                            class: format!("failed-commit-changed-store:{phase}:{}{}", key_class(&k), self.shape()),
+                            detail: format!(
+                                "commit of ws{ws} ({nops} operations) returned Err {} but the store is not what it was before the call: {n} key(s) differ, first {k}: before {}, after {}",
+                                err_kind(e),
+                                pre_dump.get(&k).cloned().unwrap_or_else(|| "<absent>".into()),
+                                post_dump.get(&k).cloned().unwrap_or_else(|| "<absent>".into())
+                            ),
+                        });
+                    } else if after_apply {
+                        ctx.probe("failed_commit_after_apply_left_store_untouched");
+                    }
+                    if let Some(v) = found {
+                        let mut p = self.pending.lock().unwrap();
+                        if p.is_none() {
+                            *p = Some(v);
+                        }
+                    }
+                }
                 if let Err(e) = &r {
                     // "commit rejected by the validator": an error of the validation family
-                    // that is not Chain::append's height/hash check
+                    // that is not Chain::append's height/hash/signature check (the transition
+                    // validator, not the validator registry)
                     let k = err_kind(e);
                     let validator = matches!(e, ChainError::InvalidTransition(_) | ChainError::CodebookError(_) | ChainError::MergeFailed(_))
-                        || (k.starts_with("ValidationFailed(") && !k.starts_with("ValidationFailed(expected height") && !k.starts_with("ValidationFailed(height does not follow"));
+                        || (k.starts_with("ValidationFailed(")
+                            && !k.starts_with("ValidationFailed(expected height")
+                            && !k.starts_with("ValidationFailed(height does not follow")
+                            && !k.starts_with("ValidationFailed(unknown proposer")
+                            && !k.contains("signature"));
                     if validator {
                         ctx.probe("commit_rejected_by_validator");
                         ctx.fp("commit-rejected");
@@ -458,6 +748,18 @@ impl World {
         }
     }
 
+    /// End of the program: put the chain's own key back if the program left it out
+    /// (true if it did).
+    fn ensure_own_key_registered(&self) -> bool {
+        let reg = self.chain.validator_registry();
+        if reg.contains(self.chain.node_id()) {
+            return false;
+        }
+        let _ = reg.register_public_key(&self.chain.public_key_bytes());
+        self.ctx.event("end of program: own key registered again");
+        true
+    }
+
     /// root-cause shape that goes into violation classes: execution mode and
     /// which risky events happened in the run so far
     fn shape(&self) -> String {
@@ -470,6 +772,9 @@ impl World {
             r.commit_err.as_deref().is_some_and(|e| e.starts_with("ValidationFailed(expected height") || e == "InvalidHash")
         }) {
             s.push_str("+append-lost");
+        }
+        if recs.iter().any(|r| r.commit_err.as_deref() == Some("ValidationFailed(unknown proposer)")) {
+            s.push_str("+append-rejected");
         }
         if recs.iter().any(|r| r.failed_by_other) {
             s.push_str("+merge-candidate-failed");
@@ -487,11 +792,18 @@ impl World {
         let height = chain.height();
 
         // "integrity verification succeeds on any chain built through the public interface"
-        if let Err(e) = chain.verify() {
-            return v(
-                "verify-fails-on-untampered-chain",
-                format!("verify() = Err {} on a chain built only through begin/put/delete/commit/rollback (height {height})", err_kind(&e)),
-            );
+        // Narrow relaxation: while the proposer's own key is out of the validator registry
+        // (Op::Validator) verification cannot check the blocks' signatures and is expected
+        // to refuse; the clause is evaluated again once the key is back (end of every run).
+        if chain.validator_registry().contains(chain.node_id()) {
+            if let Err(e) = chain.verify() {
+                return v(
+                    "verify-fails-on-untampered-chain",
+                    format!("verify() = Err {} on a chain built only through begin/put/delete/commit/rollback (height {height})", err_kind(&e)),
+                );
+            }
+        } else {
+            self.ctx.probe("judged_with_own_key_unregistered");
         }
         // "A transaction workspace ... becomes one new block": one block per commit that returned Ok
         let n_ok = recs.iter().filter(|r| r.commit_ok).count() as u64;
@@ -539,17 +851,31 @@ impl World {
         let mut order: Vec<usize> = (0..recs.len()).filter(|i| !recs[*i].ops.is_empty()).collect();
         order.sort_by_key(|i| (rank(&recs[*i]), usize::MAX - recs[*i].ops.len(), *i));
         let mut placed: BTreeMap<usize, u64> = BTreeMap::new();
+        // first an assignment over all blocks at once that satisfies the clause exactly:
+        // every workspace that counts as committed in exactly one block, no other workspace
+        // in any (a block-by-block choice can give an interchangeable operation list, e.g. a
+        // lone delete of the same key, to the wrong block and then miss it later)
+        let eligible: Vec<usize> = order.iter().copied().filter(|i| rank(&recs[*i]) <= 1).collect();
+        let txlists: Vec<&[Transaction]> = blocks.iter().skip(1).map(|b| b.transactions.as_slice()).collect();
+        let exact = assign_all(&txlists, 0, 0, false, &eligible, &recs, &mut placed);
+        if !exact {
+            placed.clear();
+        }
+        // otherwise block by block, to name what is wrong
         for (h, b) in blocks.iter().enumerate().skip(1) {
+            if exact {
+                break;
+            }
             let txs = &b.transactions;
             let mut used: Vec<usize> = Vec::new();
             if !decompose(txs, 0, &order, &recs, &placed, &mut used) {
                 // explain: which workspace's writes are there, partially or again?
                 let mut why = String::new();
                 for (i, r) in recs.iter().enumerate() {
-                    let n = r.ops.iter().filter(|o| matches!(o, Transaction::Put { .. }) && txs.contains(o)).count();
+                    let n = r.ops.iter().filter(|o| txs.contains(o)).count();
                     if n > 0 {
                         why.push_str(&format!(
-                            "[ws{} (thread {}): {n} of its {} writes in this block{}] ",
+                            "[ws{} (thread {}): {n} of its {} operations in this block{}] ",
                             r.slot,
                             r.thread,
                             r.ops.len(),
@@ -558,14 +884,19 @@ impl World {
                     }
                 }
                 let again = recs.iter().enumerate().any(|(i, r)| {
-                    placed.contains_key(&i) && r.ops.iter().any(|o| matches!(o, Transaction::Put { .. }) && txs.contains(o))
+                    placed.contains_key(&i) && r.ops.iter().any(|o| !matches!(o, Transaction::Delete { .. } | Transaction::NodeDelete { .. } | Transaction::TableDelete { .. }) && txs.contains(o))
                 });
                 return v(
                     if again { "workspace-in-two-blocks" } else { "block-is-not-a-set-of-whole-workspaces" },
                     format!("block {h} ({} transactions) is not a concatenation of whole workspaces not yet in the chain: {why}", txs.len()),
                 );
             }
-            if used.len() > 1 {
+            for i in used {
+                placed.insert(i, h as u64);
+            }
+        }
+        for (h, b) in blocks.iter().enumerate().skip(1) {
+            if placed.values().filter(|p| **p == h as u64).count() > 1 {
                 self.ctx.probe("auto_merge_merged");
                 if self.codebook {
                     self.ctx.probe("merge_accepted_by_validator");
@@ -573,9 +904,6 @@ impl World {
             }
             if !b.header.quantized_codes.is_empty() {
                 self.ctx.probe("block_carries_quantized_code");
-            }
-            for i in used {
-                placed.insert(i, h as u64);
             }
         }
         for (i, r) in recs.iter().enumerate() {
@@ -620,33 +948,35 @@ impl World {
         }
 
         // "with all its writes applied to the store" / "the store equals the reference map
-        // obtained by applying the blocks in chain order"
-        let mut reference: BTreeMap<String, Vec<u8>> = BTreeMap::new();
+        // obtained by applying the blocks in chain order": every key of the store that is not
+        // the chain's own bookkeeping, against the reference semantics of the operations
+        let mut reference: BTreeMap<String, TensorData> = BTreeMap::new();
         for b in blocks.iter().skip(1) {
             for tx in &b.transactions {
+                model_apply(&mut reference, tx);
                 match tx {
-                    Transaction::Put { key, data } => {
-                        reference.insert(key.clone(), data.clone());
-                    },
-                    Transaction::Delete { key } => {
-                        reference.remove(key);
-                    },
+                    Transaction::TableInsert { .. } | Transaction::TableUpdate { .. } | Transaction::TableDelete { .. } => self.ctx.probe("block_with_table_op"),
+                    Transaction::NodeCreate { .. } | Transaction::NodeDelete { .. } | Transaction::EdgeCreate { .. } => self.ctx.probe("block_with_graph_op"),
+                    Transaction::Embed { .. } => self.ctx.probe("block_with_embed_op"),
+                    Transaction::CompareAndSwap { .. } => self.ctx.probe("block_with_cas_op"),
                     _ => {},
                 }
             }
         }
-        let got = user_dump(chain.store());
-        if got != reference {
-            let show = |m: &BTreeMap<String, Vec<u8>>| {
-                m.iter().map(|(k, v)| format!("{k}={}", String::from_utf8_lossy(v))).collect::<Vec<_>>().join(", ")
-            };
-            // "each failed or rolled-back workspace's writes appear ... in no store key"
+        let reference = canon_map(&reference);
+        let got = data_dump(chain.store());
+        if let Some(k) = first_diff_key(&got, &reference) {
+            let show = |m: &BTreeMap<String, String>| m.iter().map(|(k, v)| format!("{k}={v}")).collect::<Vec<_>>().join(", ");
+            // "each failed or rolled-back workspace's writes appear ... in no store key": does a
+            // differing key hold what an operation of a workspace that is in no block writes?
             let mut foreign = false;
             for r in recs.iter() {
                 if !r.commit_ok && r.ws.state() != TransactionState::Committed {
                     for o in &r.ops {
-                        if let Transaction::Put { key, data } = o {
-                            if got.get(key) == Some(data) {
+                        let mut m = BTreeMap::new();
+                        model_apply(&mut m, o);
+                        for (wk, wv) in canon_map(&m) {
+                            if got.get(&wk) == Some(&wv) && reference.get(&wk) != Some(&wv) {
                                 foreign = true;
                             }
                         }
@@ -654,12 +984,59 @@ impl World {
                 }
             }
             return v(
-                if foreign { "uncommitted-write-in-store" } else { "store-differs-from-blocks" },
-                format!("store user keys {{{}}} but applying blocks 1..={height} in order gives {{{}}}", show(&got), show(&reference)),
+                // (plain keys keep the class names of earlier versions of this scenario)
+                &format!(
+                    "{}{}",
+                    if foreign { "uncommitted-write-in-store" } else { "store-differs-from-blocks" },
+                    if key_class(&k) == "plain-key" { String::new() } else { format!(":{}", key_class(&k)) }
+                ),
+                format!(
+                    "first differing key {k}: store {}, blocks {}; store data keys {{{}}} but applying blocks 1..={height} in order gives {{{}}}",
+                    got.get(&k).cloned().unwrap_or_else(|| "<absent>".into()),
+                    reference.get(&k).cloned().unwrap_or_else(|| "<absent>".into()),
+                    show(&got),
+                    show(&reference)
+                ),
             );
         }
         None
     }
+}
+
+/// Can the blocks `blocks[bi..]` (from position `pos` of block `bi` on) be written as
+/// concatenations of the operation lists of distinct workspaces out of `cands`, each
+/// block of at least one, so that in the end every candidate is in exactly one block?
+/// `placed` maps the chosen workspaces to their block heights (block `bi` = height bi + 1).
+fn assign_all(
+    blocks: &[&[Transaction]],
+    bi: usize,
+    pos: usize,
+    any_in_block: bool,
+    cands: &[usize],
+    recs: &[WsRec],
+    placed: &mut BTreeMap<usize, u64>,
+) -> bool {
+    if bi == blocks.len() {
+        return cands.iter().all(|i| placed.contains_key(i));
+    }
+    let txs = blocks[bi];
+    if pos == txs.len() {
+        return any_in_block && assign_all(blocks, bi + 1, 0, false, cands, recs, placed);
+    }
+    for &i in cands {
+        if placed.contains_key(&i) {
+            continue;
+        }
+        let ops = &recs[i].ops;
+        if txs.len() - pos >= ops.len() && txs[pos..pos + ops.len()] == ops[..] {
+            placed.insert(i, bi as u64 + 1);
+            if assign_all(blocks, bi, pos + ops.len(), true, cands, recs, placed) {
+                return true;
+            }
+            placed.remove(&i);
+        }
+    }
+    false
 }
 
 /// Can `txs[pos..]` be written as a concatenation of the operation lists of
@@ -685,29 +1062,6 @@ fn decompose(txs: &[Transaction], pos: usize, order: &[usize], recs: &[WsRec], p
     false
 }
 
-fn user_dump(store: &TensorStore) -> BTreeMap<String, Vec<u8>> {
-    let mut out = BTreeMap::new();
-    let mut keys = store.scan("u:");
-    keys.sort();
-    keys.dedup();
-    for k in keys {
-        match store.get(&k) {
-            Ok(d) => match d.get("data") {
-                Some(TensorValue::Scalar(ScalarValue::Bytes(b))) => {
-                    out.insert(k, b.clone());
-                },
-                _ => {
-                    out.insert(k, b"<no data field>".to_vec());
-                },
-            },
-            Err(_) => {
-                out.insert(k, b"<listed-by-scan-but-get-fails>".to_vec());
-            },
-        }
-    }
-    out
-}
-
 /// An Ed25519 identity whose secret comes from the run's simulated random
 /// stream. (`Identity::generate` reads the OS through the raw getrandom
 /// syscall of the `getrandom 0.2` crate, which the kernel does not interpose,
@@ -729,6 +1083,293 @@ fn write_block(store: &TensorStore, h: u64, b: &Block) -> Result<(), String> {
     let bytes = bitcode::serialize(b).map_err(|e| format!("serialize: {e}"))?;
     rec.set("_block", TensorValue::Scalar(ScalarValue::Bytes(bytes)));
     store.put(&key, rec).map_err(|e| format!("put {key}: {e}"))
+}
+
+/// Kind of a transaction field, for alterations that move bytes between fields.
+#[derive(Clone, Copy, PartialEq, Debug)]
+enum Fk {
+    /// variable length, UTF-8
+    Str,
+    /// variable length
+    Bytes,
+    /// variable length, a multiple of 4 (f32 list)
+    F32s,
+    /// 8 bytes (u64, little endian)
+    U64,
+}
+
+impl Fk {
+    fn admits(self, b: &[u8]) -> bool {
+        match self {
+            Fk::Str => std::str::from_utf8(b).is_ok(),
+            Fk::Bytes => true,
+            Fk::F32s => b.len() % 4 == 0,
+            Fk::U64 => b.len() == 8,
+        }
+    }
+}
+
+/// The fields of a stored transaction in declaration order, as bytes.
+fn tx_fields(tx: &Transaction) -> Vec<(Vec<u8>, Fk)> {
+    let s = |x: &String| (x.as_bytes().to_vec(), Fk::Str);
+    let b = |x: &Vec<u8>| (x.clone(), Fk::Bytes);
+    let n = |x: &u64| (x.to_le_bytes().to_vec(), Fk::U64);
+    match tx {
+        Transaction::Put { key, data } => vec![s(key), b(data)],
+        Transaction::Delete { key } | Transaction::NodeDelete { key } => vec![s(key)],
+        Transaction::Embed { key, vector } => vec![s(key), (vector.iter().flat_map(|f| f.to_le_bytes()).collect(), Fk::F32s)],
+        Transaction::NodeCreate { key, label } => vec![s(key), s(label)],
+        Transaction::EdgeCreate { from, to, edge_type } => vec![s(from), s(to), s(edge_type)],
+        Transaction::TableInsert { table, values } => vec![s(table), b(values)],
+        Transaction::TableUpdate { table, row_id, values } => vec![s(table), n(row_id), b(values)],
+        Transaction::TableDelete { table, row_id } => vec![s(table), n(row_id)],
+        Transaction::CompareAndSwap { key, expected_data, new_data } => vec![s(key), b(expected_data), b(new_data)],
+        _ => Vec::new(),
+    }
+}
+
+/// The same variant with other field contents (None: a field does not admit its bytes).
+fn tx_with_fields(tx: &Transaction, f: &[Vec<u8>]) -> Option<Transaction> {
+    let kinds: Vec<Fk> = tx_fields(tx).into_iter().map(|x| x.1).collect();
+    if kinds.len() != f.len() || kinds.iter().zip(f.iter()).any(|(k, b)| !k.admits(b)) {
+        return None;
+    }
+    let s = |i: usize| String::from_utf8(f[i].clone()).unwrap_or_default();
+    let n = |i: usize| {
+        let mut a = [0u8; 8];
+        a.copy_from_slice(&f[i]);
+        u64::from_le_bytes(a)
+    };
+    Some(match tx {
+        Transaction::Put { .. } => Transaction::Put { key: s(0), data: f[1].clone() },
+        Transaction::Delete { .. } => Transaction::Delete { key: s(0) },
+        Transaction::NodeDelete { .. } => Transaction::NodeDelete { key: s(0) },
+        Transaction::Embed { .. } => Transaction::Embed {
+            key: s(0),
+            vector: f[1].chunks(4).map(|c| f32::from_le_bytes([c[0], c[1], c[2], c[3]])).collect(),
+        },
+        Transaction::NodeCreate { .. } => Transaction::NodeCreate { key: s(0), label: s(1) },
+        Transaction::EdgeCreate { .. } => Transaction::EdgeCreate { from: s(0), to: s(1), edge_type: s(2) },
+        Transaction::TableInsert { .. } => Transaction::TableInsert { table: s(0), values: f[1].clone() },
+        Transaction::TableUpdate { .. } => Transaction::TableUpdate { table: s(0), row_id: n(1), values: f[2].clone() },
+        Transaction::TableDelete { .. } => Transaction::TableDelete { table: s(0), row_id: n(1) },
+        Transaction::CompareAndSwap { .. } => Transaction::CompareAndSwap { key: s(0), expected_data: f[1].clone(), new_data: f[2].clone() },
+        _ => return None,
+    })
+}
+
+/// amounts by which a field boundary is moved (positive: the earlier field grows)
+const SHIFTS: &[i64] = &[1, -1, 2, -2, 4, -4, 3, -3, 8, -8];
+
+/// All transactions obtained from `tx` by moving the boundary between two
+/// variable-length fields that are adjacent or separated by fixed-width fields only
+/// (those keep their width and slide along): the concatenation of the field bytes
+/// stays what it was.
+fn shifts_within(tx: &Transaction) -> Vec<Transaction> {
+    let fs = tx_fields(tx);
+    let mut out = Vec::new();
+    for i in 0..fs.len() {
+        if fs[i].1 == Fk::U64 {
+            continue;
+        }
+        for j in i + 1..fs.len() {
+            if fs[j].1 != Fk::U64 {
+                let cat: Vec<u8> = fs[i..=j].iter().flat_map(|f| f.0.iter().copied()).collect();
+                let fixed = 8 * (j - i - 1) as i64;
+                for d in SHIFTS {
+                    let li = fs[i].0.len() as i64 + d;
+                    let lj = cat.len() as i64 - li - fixed;
+                    if li < 0 || lj < 0 {
+                        continue;
+                    }
+                    let mut nf: Vec<Vec<u8>> = fs.iter().map(|f| f.0.clone()).collect();
+                    let mut pos = 0usize;
+                    for (k, slot) in nf.iter_mut().enumerate().take(j + 1).skip(i) {
+                        let len = if k == i { li as usize } else if k == j { lj as usize } else { 8 };
+                        *slot = cat[pos..pos + len].to_vec();
+                        pos += len;
+                    }
+                    if let Some(t) = tx_with_fields(tx, &nf) {
+                        if t != *tx {
+                            out.push(t);
+                        }
+                    }
+                }
+                break;
+            }
+        }
+    }
+    out
+}
+
+/// All pairs obtained from two consecutive transactions by cutting the tail off the
+/// last variable-length field of the first and putting it in front of the first
+/// field of the second, or the reverse.
+fn shifts_across(a: &Transaction, b: &Transaction) -> Vec<(Transaction, Transaction)> {
+    let (fa, fb) = (tx_fields(a), tx_fields(b));
+    let mut out = Vec::new();
+    let Some(ia) = (0..fa.len()).rev().find(|i| fa[*i].1 != Fk::U64) else { return out };
+    let Some(ib) = (0..fb.len()).find(|i| fb[*i].1 != Fk::U64) else { return out };
+    for d in SHIFTS {
+        let mut na: Vec<Vec<u8>> = fa.iter().map(|f| f.0.clone()).collect();
+        let mut nb: Vec<Vec<u8>> = fb.iter().map(|f| f.0.clone()).collect();
+        if *d < 0 {
+            // a's field loses its tail to b's field
+            let n = (-*d) as usize;
+            if na[ia].len() < n {
+                continue;
+            }
+            let keep = na[ia].len() - n;
+            let tail = na[ia].split_off(keep);
+            nb[ib].splice(0..0, tail);
+        } else {
+            let n = *d as usize;
+            if nb[ib].len() < n {
+                continue;
+            }
+            let head: Vec<u8> = nb[ib].drain(0..n).collect();
+            na[ia].extend(head);
+        }
+        if let (Some(x), Some(y)) = (tx_with_fields(a, &na), tx_with_fields(b, &nb)) {
+            out.push((x, y));
+        }
+    }
+    out
+}
+
+/// All versions of the transaction list with two equal-length, different fields
+/// exchanged: of one transaction (`across == false`) or of two.
+fn swaps(txs: &[Transaction], across: bool) -> Vec<Vec<Transaction>> {
+    let fields: Vec<Vec<(Vec<u8>, Fk)>> = txs.iter().map(tx_fields).collect();
+    let mut out = Vec::new();
+    for a in 0..txs.len() {
+        for b in a..txs.len() {
+            if across == (a == b) {
+                continue;
+            }
+            for i in 0..fields[a].len() {
+                for j in 0..fields[b].len() {
+                    if (a == b && j <= i) || fields[a][i].0.len() != fields[b][j].0.len() || fields[a][i].0 == fields[b][j].0 {
+                        continue;
+                    }
+                    let mut na: Vec<Vec<u8>> = fields[a].iter().map(|f| f.0.clone()).collect();
+                    let mut nb: Vec<Vec<u8>> = fields[b].iter().map(|f| f.0.clone()).collect();
+                    if a == b {
+                        na.swap(i, j);
+                        if let Some(x) = tx_with_fields(&txs[a], &na) {
+                            let mut v = txs.to_vec();
+                            v[a] = x;
+                            out.push(v);
+                        }
+                    } else {
+                        std::mem::swap(&mut na[i], &mut nb[j]);
+                        if let (Some(x), Some(y)) = (tx_with_fields(&txs[a], &na), tx_with_fields(&txs[b], &nb)) {
+                            let mut v = txs.to_vec();
+                            v[a] = x;
+                            v[b] = y;
+                            out.push(v);
+                        }
+                    }
+                }
+            }
+        }
+    }
+    out
+}
+
+/// All alterations of kind `kind` (index into `RESHAPES`) of one block, each with
+/// the shape that goes into the violation class.
+fn reshapes(b: &Block, kind: usize) -> Vec<(Block, String)> {
+    let mut out: Vec<(Block, String)> = Vec::new();
+    let txs = &b.transactions;
+    let with_txs = |v: Vec<Transaction>| {
+        let mut nb = b.clone();
+        nb.transactions = v;
+        nb
+    };
+    match RESHAPES[kind] {
+        "shift-within-tx" => {
+            for (i, tx) in txs.iter().enumerate() {
+                for t in shifts_within(tx) {
+                    let mut v = txs.clone();
+                    v[i] = t;
+                    out.push((with_txs(v), tx_kind(tx).to_string()));
+                }
+            }
+        },
+        "shift-across-txs" => {
+            for i in 0..txs.len().saturating_sub(1) {
+                for (x, y) in shifts_across(&txs[i], &txs[i + 1]) {
+                    let mut v = txs.clone();
+                    v[i] = x;
+                    v[i + 1] = y;
+                    out.push((with_txs(v), String::new()));
+                }
+            }
+        },
+        "swap-within-tx" => {
+            for v in swaps(txs, false) {
+                let which = txs.iter().zip(v.iter()).find(|(a, b)| a != b).map(|(a, _)| tx_kind(a)).unwrap_or("");
+                out.push((with_txs(v), which.to_string()));
+            }
+        },
+        "swap-across-txs" => {
+            for v in swaps(txs, true) {
+                out.push((with_txs(v), String::new()));
+            }
+        },
+        "tx-reorder" => {
+            for i in 0..txs.len() {
+                for j in i + 1..txs.len() {
+                    if txs[i] != txs[j] {
+                        let mut v = txs.clone();
+                        v.swap(i, j);
+                        out.push((with_txs(v), String::new()));
+                    }
+                }
+            }
+        },
+        "header-swap" => {
+            let mut push = |f: &dyn Fn(&mut Block), name: &str| {
+                let mut nb = b.clone();
+                f(&mut nb);
+                if nb != *b {
+                    out.push((nb, name.to_string()));
+                }
+            };
+            push(&|n: &mut Block| std::mem::swap(&mut n.header.prev_hash, &mut n.header.tx_root), "prev_hash-tx_root");
+            push(&|n: &mut Block| std::mem::swap(&mut n.header.tx_root, &mut n.header.state_root), "tx_root-state_root");
+            push(&|n: &mut Block| std::mem::swap(&mut n.header.prev_hash, &mut n.header.state_root), "prev_hash-state_root");
+        },
+        _ => {
+            // header-shift: ... quantized_codes (u16 list) | timestamp (u64) | proposer (string)
+            let h = &b.header;
+            let ts = h.timestamp.to_le_bytes();
+            let p = h.proposer.as_bytes();
+            // the code list grows by the first two bytes of the timestamp, the timestamp
+            // slides into the proposer
+            if p.len() >= 2 && h.proposer.is_char_boundary(2) {
+                let mut nb = b.clone();
+                nb.header.quantized_codes.push(u16::from_le_bytes([ts[0], ts[1]]));
+                nb.header.timestamp = u64::from_le_bytes([ts[2], ts[3], ts[4], ts[5], ts[6], ts[7], p[0], p[1]]);
+                nb.header.proposer = h.proposer[2..].to_string();
+                out.push((nb, "codes-grow".to_string()));
+            }
+            // the last code slides into the timestamp, the timestamp's last two bytes
+            // into the proposer
+            if let Some(c) = h.quantized_codes.last() {
+                if let Ok(head) = std::str::from_utf8(&ts[6..8]) {
+                    let c = c.to_le_bytes();
+                    let mut nb = b.clone();
+                    nb.header.quantized_codes.pop();
+                    nb.header.timestamp = u64::from_le_bytes([c[0], c[1], ts[0], ts[1], ts[2], ts[3], ts[4], ts[5]]);
+                    nb.header.proposer = format!("{head}{}", h.proposer);
+                    out.push((nb, "codes-shrink".to_string()));
+                }
+            }
+        },
+    }
+    out
 }
 
 fn flip(h: &mut [u8; 32]) {
@@ -932,6 +1573,71 @@ impl C16 {
                 }
                 what = format!("forged:{who}{}:{}", if claim { "+own-id" } else { "" }, pos(h));
             },
+            Tamper::Reshape { h, kind, pick } => {
+                let kind = *kind as usize % RESHAPES.len();
+                // the first block, from h on (cyclically), that admits an alteration of this kind
+                let mut found: Option<(u64, Block, String)> = None;
+                for off in 0..=height {
+                    let hh = (u64::from(*h) + off) % (height + 1);
+                    let Ok(Some(b)) = chain.get_block(hh) else {
+                        out.harness_error = Some(format!("tamper: block {hh} unreadable before tampering"));
+                        return;
+                    };
+                    let mut alts = reshapes(&b, kind);
+                    if !alts.is_empty() {
+                        let (nb, shape) = alts.swap_remove(*pick as usize % alts.len());
+                        if nb == b {
+                            out.harness_error = Some(format!("tamper: {} left block {hh} unchanged", RESHAPES[kind]));
+                            return;
+                        }
+                        found = Some((hh, nb, shape));
+                        break;
+                    }
+                }
+                let Some((hh, nb, shape)) = found else {
+                    // no block of this chain has two fields this alteration could work on
+                    ctx.probe("reshape_not_applicable");
+                    ctx.event(&format!("tamper {}: not applicable to any block", RESHAPES[kind]));
+                    return;
+                };
+                if let Ok(Some(orig)) = chain.get_block(hh) {
+                    for (i, (a, b)) in orig.transactions.iter().zip(nb.transactions.iter()).enumerate() {
+                        if a != b {
+                            ctx.event(&format!("  block {hh} tx {i}: {}  ==>  {}", tx_str(a), tx_str(b)));
+                        }
+                    }
+                    if orig.header != nb.header {
+                        ctx.event(&format!(
+                            "  block {hh} header: codes {:?} timestamp {:#x} proposer {:?} prev {} txroot {} state {}  ==>  codes {:?} timestamp {:#x} proposer {:?} prev {} txroot {} state {}",
+                            orig.header.quantized_codes,
+                            orig.header.timestamp,
+                            orig.header.proposer,
+                            &hex(&orig.header.prev_hash)[..8],
+                            &hex(&orig.header.tx_root)[..8],
+                            &hex(&orig.header.state_root)[..8],
+                            nb.header.quantized_codes,
+                            nb.header.timestamp,
+                            nb.header.proposer,
+                            &hex(&nb.header.prev_hash)[..8],
+                            &hex(&nb.header.tx_root)[..8],
+                            &hex(&nb.header.state_root)[..8]
+                        ));
+                    }
+                }
+                if let Err(e) = write_block(store, hh, &nb) {
+                    out.harness_error = Some(format!("tamper: {e}"));
+                    return;
+                }
+                ctx.probe("two_field_alteration_applied");
+                ctx.probe(match RESHAPES[kind] {
+                    "shift-within-tx" => "boundary_shift_within_tx_applied",
+                    "shift-across-txs" => "boundary_shift_across_txs_applied",
+                    "swap-within-tx" | "swap-across-txs" => "equal_length_swap_applied",
+                    "tx-reorder" => "tx_reorder_applied",
+                    _ => "header_two_field_alteration_applied",
+                });
+                what = format!("{}{}:{}", RESHAPES[kind], if shape.is_empty() { String::new() } else { format!(":{shape}") }, pos(hh));
+            },
         }
         ctx.fault_fired("block_record_tampered");
         ctx.fp(&what);
@@ -1109,6 +1815,10 @@ impl Scenario for C16 {
         let mut u = 0u32;
         let mut slot = 0u8;
         let mut threads = Vec::new();
+        // half of the cases draw from every operation kind the workspace API accepts
+        let rich = rng.chance(1, 2);
+        // the generator's guess of each key's current value (for compare-and-swap operands)
+        let mut last_put: BTreeMap<u8, Vec<u8>> = BTreeMap::new();
         for t in 0..nthreads {
             let nws = if nthreads == 1 { rng.range(2, 4) } else { rng.range(1, 2) };
             let mut lists: Vec<Vec<Op>> = Vec::new();
@@ -1123,12 +1833,34 @@ impl Scenario for C16 {
                     rng.below(6) as u8
                 };
                 let mut l = vec![Op::Begin { ws, dir }];
-                for _ in 0..rng.range(1, 3) {
+                for _ in 0..rng.range(1, if rich { 4 } else { 3 }) {
                     let k = if disjoint_keys { (t as u8 * 2 + rng.below(2) as u8) % NKEYS } else { rng.below(3) as u8 };
-                    if rng.chance(3, 4) {
+                    if rich && rng.chance(3, 5) {
                         u += 1;
+                        let val = format!("w{ws}#{u}").into_bytes();
+                        let table = format!("u:t{}", k % 2);
+                        let node = |i: u8| format!("u:n{}", i % 3);
+                        let tx = match rng.below(10) {
+                            0 => Transaction::Embed { key: format!("u:e{}", k % 3), vector: vec![u as f32, 0.5, -f32::from(k)] },
+                            1 => Transaction::NodeCreate { key: node(k), label: format!("L{u}") },
+                            2 => Transaction::NodeDelete { key: node(k) },
+                            3 => Transaction::EdgeCreate { from: node(k), to: node(k + 1 + rng.below(2) as u8), edge_type: format!("t{}", rng.below(2)) },
+                            4 | 5 => Transaction::TableInsert { table, values: val },
+                            6 => Transaction::TableUpdate { table, row_id: rng.below(3), values: val },
+                            7 => Transaction::TableDelete { table, row_id: rng.below(3) },
+                            _ => {
+                                let expected_data = if rng.chance(1, 3) { Vec::new() } else { last_put.get(&(k % NKEYS)).cloned().unwrap_or_default() };
+                                last_put.insert(k % NKEYS, val.clone());
+                                Transaction::CompareAndSwap { key: user_key(k), expected_data, new_data: val }
+                            },
+                        };
+                        l.push(Op::Tx { ws, tx });
+                    } else if rng.chance(3, 4) {
+                        u += 1;
+                        last_put.insert(k % NKEYS, format!("w{ws}#{u}").into_bytes());
                         l.push(Op::Put { ws, k, u });
                     } else {
+                        last_put.remove(&(k % NKEYS));
                         l.push(Op::Del { ws, k });
                     }
                 }
@@ -1161,12 +1893,35 @@ impl Scenario for C16 {
             }
             threads.push(prog);
         }
+        // the chain's own key leaves the validator registry in the middle of the program (a
+        // third of the cases) and mostly comes back later: the commits in between are
+        // refused by Chain::append after their operations were applied
+        if rng.chance(1, 3) {
+            let t = rng.below(nthreads as u64) as usize;
+            let len = threads[t].len();
+            let p = rng.range((len / 3) as u64, len as u64) as usize;
+            threads[t].insert(p, Op::Validator { present: false });
+            if rng.chance(3, 4) {
+                let q = rng.range(p as u64 + 1, len as u64 + 1) as usize;
+                threads[t].insert(q, Op::Validator { present: true });
+                if rng.chance(1, 2) {
+                    // one more workspace committed on the repaired chain
+                    let ws = slot;
+                    u += 1;
+                    threads[t].push(Op::Begin { ws, dir: 0 });
+                    threads[t].push(Op::Put { ws, k: rng.below(3) as u8, u });
+                    threads[t].push(Op::Commit { ws });
+                }
+            }
+        }
+        let max_txs = if rng.chance(1, 8) { *rng.pick(&[2u8, 3, 4]) } else { 0 };
         let kind = match sel {
-            7 | 8 => Kind::Tamper(match rng.below(10) {
-                0..=4 => Tamper::Field { h: rng.below(8) as u8, field: rng.below(FIELDS.len() as u64) as u8 },
-                5 => Tamper::Remove { h: rng.below(8) as u8 },
-                6 => Tamper::Swap { a: rng.below(8) as u8, b: rng.below(8) as u8 },
-                _ => Tamper::Forge { h: rng.below(8) as u8, signer: rng.below(2) as u8, claim_own: rng.chance(1, 2) },
+            7 | 8 => Kind::Tamper(match rng.below(12) {
+                0..=3 => Tamper::Field { h: rng.below(8) as u8, field: rng.below(FIELDS.len() as u64) as u8 },
+                4 => Tamper::Remove { h: rng.below(8) as u8 },
+                5 => Tamper::Swap { a: rng.below(8) as u8, b: rng.below(8) as u8 },
+                6 | 7 => Tamper::Forge { h: rng.below(8) as u8, signer: rng.below(2) as u8, claim_own: rng.chance(1, 2) },
+                _ => Tamper::Reshape { h: rng.below(8) as u8, kind: rng.below(RESHAPES.len() as u64) as u8, pick: rng.below(64) as u16 },
             }),
             9 => match rng.below(10) {
                 0 | 1 => Kind::Replay { skew_ms: *rng.pick(&[1u16, 7, 250]), own_id: false },
@@ -1178,7 +1933,7 @@ impl Scenario for C16 {
         let stick = *rng.pick(&[0u64, 50, 80, 92]);
         let schedule = if nthreads > 1 { sched::gen_schedule(rng, 30 + 25 * nthreads, stick) } else { Vec::new() };
         let epoch_ms = 1 + rng.below(1 << 41);
-        Case { kind, auto_merge: rng.chance(1, 2), validation, epoch_ms, second_validator: rng.chance(1, 2), threads, schedule }
+        Case { kind, auto_merge: rng.chance(1, 2), validation, epoch_ms, max_txs, second_validator: rng.chance(1, 2), threads, schedule }
     }
 
     fn run(&self, case: &Case, ctx: &Arc<RunCtx>) -> RunOut {
@@ -1191,7 +1946,10 @@ impl Scenario for C16 {
         }
         let t_init = ctx.lock().wall_ns;
         let store = TensorStore::new();
-        let cfg = ChainConfig::new("n0").with_auto_merge(case.auto_merge);
+        let mut cfg = ChainConfig::new("n0").with_auto_merge(case.auto_merge);
+        if case.max_txs > 0 {
+            cfg = cfg.with_max_txs(case.max_txs as usize);
+        }
         let centroids = case.validation.centroid_vectors();
         let codebook = !centroids.is_empty();
         let chain = if codebook {
@@ -1254,6 +2012,7 @@ impl Scenario for C16 {
             in_commit: Mutex::new(vec![None; case.threads.len().max(1)]),
             codebook,
             late_commit_failure: Mutex::new(false),
+            pending: Mutex::new(None),
             private_clock: case.epoch_ms != 0,
             commit_wall: Mutex::new(Vec::new()),
             concurrent,
@@ -1280,7 +2039,15 @@ impl Scenario for C16 {
                     Op::Commit { .. } => "c",
                     Op::Rollback { .. } => "r",
                     Op::Advance { .. } => "a",
+                    Op::Tx { tx, .. } => tx_kind(tx),
+                    Op::Validator { present: true } => "V",
+                    Op::Validator { present: false } => "v",
                 });
+                if let Some(v) = world.pending.lock().unwrap().take() {
+                    out.violation = Some(Violation { class: v.class, detail: format!("op {i} {op:?}: {}", v.detail) });
+                    out.nontrivial = true;
+                    return out;
+                }
                 if matches!(op, Op::Commit { .. } | Op::Rollback { .. }) {
                     if let Some(v) = world.judge(&format!("after op {i} {op:?}")) {
                         out.violation = Some(v);
@@ -1349,7 +2116,17 @@ impl Scenario for C16 {
                 out.nontrivial = true;
                 return out;
             }
+            world.ensure_own_key_registered();
             if let Some(v) = world.judge("after all threads finished") {
+                out.violation = Some(v);
+                out.nontrivial = true;
+                return out;
+            }
+        }
+        if !concurrent && world.ensure_own_key_registered() {
+            // the chain went through commits that were refused for the missing key: with
+            // the key back, every clause (verify() included) holds again
+            if let Some(v) = world.judge("after the program, own key registered again") {
                 out.violation = Some(v);
                 out.nontrivial = true;
                 return out;
@@ -1406,6 +2183,11 @@ impl Scenario for C16 {
             c.second_validator = false;
             v.push(c);
         }
+        if case.max_txs != 0 {
+            let mut c = case.clone();
+            c.max_txs = 0;
+            v.push(c);
+        }
         if case.validation != Validation::default() {
             let mut c = case.clone();
             c.validation = Validation::default();
@@ -1453,6 +2235,18 @@ impl Scenario for C16 {
                 c.kind = Kind::Tamper(Tamper::Field { h: 1, field: *field });
                 v.push(c);
             },
+            Kind::Tamper(Tamper::Reshape { h, kind, pick }) if *h > 1 || *pick > 0 => {
+                if *h > 1 {
+                    let mut c = case.clone();
+                    c.kind = Kind::Tamper(Tamper::Reshape { h: 1, kind: *kind, pick: *pick });
+                    v.push(c);
+                }
+                if *pick > 0 {
+                    let mut c = case.clone();
+                    c.kind = Kind::Tamper(Tamper::Reshape { h: *h, kind: *kind, pick: 0 });
+                    v.push(c);
+                }
+            },
             _ => {},
         }
         v
@@ -1469,15 +2263,32 @@ impl Scenario for C16 {
             "tamper_detected_by_signature",
             "tamper_detected_by_hash_link",
             "replay_blocks_accepted",
+            // every operation kind reached a block
+            "block_with_table_op",
+            "block_with_graph_op",
+            "block_with_embed_op",
+            "block_with_cas_op",
+            // commits refused by Chain::append after their operations were applied
+            "commit_failed_after_apply",
+            "commit_failed_after_apply_multi_op",
+            "commit_failed_after_apply_with_table_ops",
+            "failed_commit_after_apply_left_store_untouched",
+            "commit_failed_on_block_size",
+            // two-field alterations of stored blocks
+            "boundary_shift_within_tx_applied",
+            "boundary_shift_across_txs_applied",
+            "equal_length_swap_applied",
+            "tx_reorder_applied",
+            "header_two_field_alteration_applied",
         ]
     }
     fn rule(&self) -> String {
-        "A case is one program of begin/put/delete/commit/rollback/advance-time operations per thread (1 thread: sequential over 2-4 interleaved workspaces, oracle evaluated after every commit and rollback; 2-4 threads: baton-scheduled with an explicit schedule, switches at operation boundaries and at 8 hook sites inside TensorChain::commit, oracle evaluated after quiescence), auto-merge on/off, the chain's codebook / transition-validation configuration (default empty codebook, or TensorChain::with_codebook with 1-3 centroids that are sums of the workspaces' delta directions, state threshold 0.6/0.8/0.95, maximum transition magnitude 0.5/1/3, strict or lenient, full or half dimension: auto-merge's validator accepts some merged transitions and vetoes others), per-workspace delta embeddings (none / orthogonal / identical / overlapping) and shared or disjoint key sets; Tamper cases add one storage fault on the stored block records (14 single-field mutations, removal, swap, forgery re-signed by a non-validator or by another validator) followed by verify(); Replay cases feed the committed blocks to two TensorStateMachine replicas on their own OS threads. Non-trivial: at least one block was committed and, for multi-thread cases, two commit calls overlapped in time. Distinct: hash of (kind, thread count, auto-merge, codebook empty or not, validator vetoes, operation kinds in order, sites at which threads were preempted, switch count, height, tamper kind).".into()
+        "A case is one program of begin/put/delete/any-other-Transaction-kind (embed, node create/delete, edge create, table insert/update/delete, compare-and-swap; half of the cases)/commit/rollback/advance-time operations per thread, in a third of the cases with the chain's own key removed from its validator registry somewhere in the program and mostly put back later (the commits in between are refused by Chain::append AFTER their operations were applied; in sequential cases the full store dump, height and tip before and after every failed commit call are compared), in an eighth with max_txs_per_block 2-4 (1 thread: sequential over 2-4 interleaved workspaces, oracle evaluated after every commit and rollback; 2-4 threads: baton-scheduled with an explicit schedule, switches at operation boundaries and at 8 hook sites inside TensorChain::commit, oracle evaluated after quiescence), auto-merge on/off, the chain's codebook / transition-validation configuration (default empty codebook, or TensorChain::with_codebook with 1-3 centroids that are sums of the workspaces' delta directions, state threshold 0.6/0.8/0.95, maximum transition magnitude 0.5/1/3, strict or lenient, full or half dimension: auto-merge's validator accepts some merged transitions and vetoes others), per-workspace delta embeddings (none / orthogonal / identical / overlapping) and shared or disjoint key sets; Tamper cases add one storage fault on the stored block records (14 single-field mutations, removal, swap, forgery re-signed by a non-validator or by another validator, or one of 7 two-field alterations: boundary between adjacent variable-length fields of a stored transaction moved by 1-8 bytes, tail of one transaction's last field moved to the head of the next transaction's first field or back, two equal-length fields swapped within one or across two transactions, two transactions exchanged, two 32-byte header fields swapped, the boundaries quantized_codes|timestamp|proposer of the header moved) followed by verify(); Replay cases feed the committed blocks to two TensorStateMachine replicas on their own OS threads. Non-trivial: at least one block was committed and, for multi-thread cases, two commit calls overlapped in time. Distinct: hash of (kind, thread count, auto-merge, codebook empty or not, validator vetoes, operation kinds in order, late commit failures, sites at which threads were preempted, switch count, height, tamper kind).".into()
     }
     fn components(&self) -> Value {
         json!({
             "real": ["tensor_chain::TensorChain (begin, commit incl. conflict detection and auto-merge, rollback, verify, get_block, height)", "tensor_chain::Chain (append, verify_chain, initialize)", "TransactionWorkspace / TransactionManager", "GlobalCodebook / CodebookManager / TransitionValidator (consulted by auto-merge and for quantized_codes; non-empty codebook in half of the cases)", "Block / BlockHeader hashing, tx merkle root, Ed25519 signing and ValidatorRegistry", "TensorStateMachine::apply_block + compute_state_root (replicas)", "GraphEngine (chain links)", "TensorStore incl. snapshot_bytes/restore_from_bytes"],
-            "simulated": ["thread interleaving (baton scheduler, schedule in the case)", "wall clock (block, workspace and graph-node timestamps)", "OS randomness (Ed25519 keys, HashMap seeds per thread)", "storage faults on block records (direct store writes)"],
+            "simulated": ["thread interleaving (baton scheduler, schedule in the case)", "wall clock (block, workspace and graph-node timestamps)", "OS randomness (Ed25519 keys, HashMap seeds per thread)", "storage faults on block records (direct store writes)", "validator registry membership of the chain's own key (public ValidatorRegistry::remove / register_public_key)"],
             "stub": ["RaftNode inside TensorStateMachine is constructed but never driven (apply_block only)"]
         })
     }
@@ -1486,6 +2297,11 @@ impl Scenario for C16 {
             "tampering is applied to the store underneath a live TensorChain instance (its in-memory height and tip hash are those of the untampered chain); re-opening the chain after tampering is not judged".into(),
             "a stored block's fields are the fields of `Block` (header fields, transactions, signatures); the auxiliary record fields _height/_hash/_timestamp next to the serialized block are not judged".into(),
             "a commit of an empty workspace returns Ok without a block and is not counted".into(),
+            "the store keys an operation writes are the ones the Transaction variants document (emb:{key}, node:{key}, edge:{from}:{to}:{type}, table:{table}:row:{row id}, for an insert :row:{hex of the operation's hash}); the reference model is written from that description, not taken from apply_transaction_to_store".into(),
+            "workspace operations use graph keys that are not numbers (node:u:n1): GraphEngine keeps the chain-link nodes of the same store under node:{numeric id} / edge:{numeric id}, and a NodeCreate/NodeDelete with a numeric key would overwrite them; that collision is outside the property and is not generated".into(),
+            "keys under chain:, _graph*, node:{digit}.., edge:{digit}.. are the chain's own bookkeeping: they are compared before/after a failed commit (sequential cases) but not against the reference model".into(),
+            "while the chain's own key is out of the validator registry verify() is expected to refuse (unknown proposer) and is not judged; every run puts the key back at the end and judges again".into(),
+            "no Transaction kind can fail in apply_transaction_to_store on a store without WAL (TensorStore::put never fails, deletes are idempotent) and compute_state_root cannot fail without a concurrent foreign delete, so the only commit failure after apply that the public interface can provoke is Chain::append refusing the block".into(),
             "a merge candidate that auto-merge gives up (validator veto) ends in state Failed without its owner having done anything; the property only asks that chain and store hold none of its writes, so that state is not judged".into(),
             "TensorChain::commit has no path on which the validator rejects the committing workspace itself (it only vetoes merge candidates); the probe commit_rejected_by_validator watches for errors of the validation family and stays at 0 on this tree".into(),
             "a workspace merged into another commit counts as committed when its state() is Committed (its owner's commit call returns an error by design)".into(),
